@@ -269,7 +269,7 @@ def st_bad():
     def for_width(w):
         mod = 1 << w
         bad_text = st.one_of(
-            st.sampled_from(["", "\n", "\n5\n", "abc\n", "-1\n", "-0\n", "+3\n", "1.0\n", "0x1\n", "1e1\n", "1 2\n", "one\n", "--\n", "1,0\n"]).map(lambda s: {"text": s}),
+            st.sampled_from(["", "\n", "\n5\n", "abc\n", "-1\n", "-0\n", "+3\n", "1.0\n", "0x1\n", "1e1\n", "1 2\n", "one\n", "--\n", "1,0\n", "1_0\n", "1_2_3\n", "0_0\n", " 1\n", "\t1\n", "1a\n", "1-\n", "0b1\n", "1.\n", "٣\n" if False else "1;\n"]).map(lambda s: {"text": s}),
             st.one_of(st.just(mod), st.just(mod + 1), st.integers(mod, mod * 4 + 10), st.just(10**30)).map(lambda v: {"text": f"{v}\n"}),
             st.sampled_from(["ff0a", "c3280a", "80", "fffe300a", "e2820a"]).map(lambda h: {"hex": h}),
         )
